@@ -81,20 +81,13 @@ omit hev in
 /-- the evaluation of a named function in the context its reference captured -/
 theorem builtin_call_sim (o : FObj) (b : Builtin) (full : List Seq) (D : Env) :
     Sim Prod.fst
-      (do IM.flag { focus := b.focusDep && decide (o.fitem ≠ o.flitem) }
-          let r ← IM.lift (b.apF (o.fitem, o.fpos, o.fsize) full)
+      (do let r ← IM.lift (b.apF (o.fitem, o.fpos, o.fsize) full)
           pure (r, D))
       (SM.lift (b.apF (eraseObj o).focus full)) := by
-  apply Sim.flag_bind
-  intro hfl
   have hfoc : b.apF (o.fitem, o.fpos, o.fsize) full = b.apF (eraseObj o).focus full := by
     cases hb : b.focusDep with
     | false => simp [Builtin.apF, hb]
-    | true =>
-      simp only [Flags.none, Flags.mk.injEq, hb, Bool.true_and, decide_eq_false_iff_not,
-        Decidable.not_not, and_true, true_and] at hfl
-      rw [hfl]
-      cases hli : o.flitem <;> cases full <;> simp [eraseObj, eraseFocus, Builtin.apF, hb, hli]
+    | true => cases hli : o.fitem <;> cases full <;> simp [eraseObj, eraseFocus, Builtin.apF, hb, hli]
   rw [hfoc]
   exact Sim.map (Sim.lift _) _ (fun _ => rfl)
 
@@ -421,35 +414,20 @@ theorem step_sim (e : Expr) (c : ICtx) (D : Env) :
     | none => exact Sim.thr _ _
     | some v => exact Sim.ret _ _ _ rfl
   | dot =>
-    simp only [step, specStep]
-    apply Sim.flag_bind
-    intro hfl
-    simp only [Flags.none, Flags.mk.injEq, decide_eq_false_iff_not, Decidable.not_not, and_true,
-      true_and] at hfl
-    simp only [eraseCtx, ← hfl]
+    simp only [step, specStep, eraseCtx]
     cases c.item with
     | none => exact Sim.thr _ _
-    | some v => exact Sim.ret _ _ _ rfl
+    | some v => exact Sim.ret _ _ _ (by simp [eraseFocus])
   | posE =>
-    simp only [step, specStep]
-    apply Sim.flag_bind
-    intro hfl
-    simp only [Flags.none, Flags.mk.injEq, decide_eq_false_iff_not, Decidable.not_not, and_true,
-      true_and] at hfl
-    simp only [eraseCtx, ← hfl]
+    simp only [step, specStep, eraseCtx]
     cases c.item with
     | none => exact Sim.thr _ _
-    | some v => exact Sim.ret _ _ _ rfl
+    | some v => exact Sim.ret _ _ _ (by simp [eraseFocus])
   | lastE =>
-    simp only [step, specStep]
-    apply Sim.flag_bind
-    intro hfl
-    simp only [Flags.none, Flags.mk.injEq, decide_eq_false_iff_not, Decidable.not_not, and_true,
-      true_and] at hfl
-    simp only [eraseCtx, ← hfl]
+    simp only [step, specStep, eraseCtx]
     cases c.item with
     | none => exact Sim.thr _ _
-    | some v => exact Sim.ret _ _ _ rfl
+    | some v => exact Sim.ret _ _ _ (by simp [eraseFocus])
   | add a b => exact evArith_sim ev sev hev _ a b c D
   | sub a b => exact evArith_sim ev sev hev _ a b c D
   | mul a b => exact evArith_sim ev sev hev _ a b c D
@@ -499,8 +477,8 @@ theorem step_sim (e : Expr) (c : ICtx) (D : Env) :
       exact Sim.ret _ _ _ rfl
   | named b =>
     simp only [step, specStep]
-    have hf : ((eraseCtx c).item, (eraseCtx c).pos, (eraseCtx c).size) = eraseFocus c.litem c.pos c.size := by
-      cases h : c.litem <;> simp [eraseCtx, eraseFocus, h]
+    have hf : ((eraseCtx c).item, (eraseCtx c).pos, (eraseCtx c).size) = eraseFocus c.item c.pos c.size := by
+      cases h : c.item <;> simp [eraseCtx, eraseFocus, h]
     rw [hf]
     apply Sim.bnd (p := id) (Sim.alloc _); intro n
     exact Sim.ret _ _ _ rfl
